@@ -2405,6 +2405,70 @@ def thread_none_tests(fn_node) -> int:
     return done
 
 
+def expand_new_properties(prog: Program) -> List[str]:
+    """a read-only ``@property`` that is not part of the reference tree and whose body is one ``return <expr over self>``
+    (no setter / deleter of that name): ``self.<name>`` inside the methods of the class and its subclasses is replaced by the
+    expression.  The expression is evaluated at the read either way."""
+    log = []
+    inv = _inventory()[1]
+    for cls in prog.classes():
+        props = {}
+        for st in cls.node.body:
+            if not isinstance(st, ast.FunctionDef):
+                continue
+            decs = [ast.unparse(d) for d in st.decorator_list]
+            if decs != ["property"] or body_hash(st) in inv:
+                continue
+            body = [b for b in st.body if not (isinstance(b, ast.Expr) and isinstance(b.value, ast.Constant))]
+            if len(body) != 1 or not isinstance(body[0], ast.Return) or body[0].value is None:
+                continue
+            params = [a.arg for a in st.args.args]
+            if len(params) != 1 or st.args.vararg or st.args.kwarg or st.args.kwonlyargs:
+                continue
+            expr = body[0].value
+            if any(isinstance(n, (ast.Lambda, ast.Yield, ast.Await, ast.NamedExpr)) for n in ast.walk(expr)):
+                continue
+            # only ``self`` and module-level names are read
+            if any(isinstance(n, ast.Name) and n.id != params[0] and isinstance(n.ctx, ast.Load) and n.id not in cls.module.functions and n.id not in cls.module.classes and n.id not in cls.module.imports and n.id not in dir(__builtins__) and n.id not in ("np", "True", "False", "None") for n in ast.walk(expr)):
+                continue
+            props[st.name] = (params[0], expr)
+        # a setter / deleter registers the same name again: leave those alone
+        for st in cls.node.body:
+            if isinstance(st, ast.FunctionDef) and any(isinstance(d, ast.Attribute) and d.attr in ("setter", "deleter") for d in st.decorator_list):
+                props.pop(st.name, None)
+        if not props:
+            continue
+        done = {}
+        for c2 in [cls] + cls.subclasses(prog):
+            for m in c2.methods.values():
+                if m.node.name in props and c2 is cls:
+                    continue
+                mp = [a.arg for a in m.node.args.args]
+                if not mp:
+                    continue
+                me = mp[0]
+                if any(isinstance(n, ast.Attribute) and n.attr in props and not isinstance(n.ctx, ast.Load) for n in ast.walk(m.node)):
+                    continue
+
+                class P(ast.NodeTransformer):
+                    def visit_Attribute(self, node):
+                        self.generic_visit(node)
+                        if isinstance(node.ctx, ast.Load) and node.attr in props and isinstance(node.value, ast.Name) and node.value.id == me:
+                            pself, ex = props[node.attr]
+                            ex = copy.deepcopy(ex)
+                            for n in ast.walk(ex):
+                                if isinstance(n, ast.Name) and n.id == pself:
+                                    n.id = me
+                            done[node.attr] = done.get(node.attr, 0) + 1
+                            return ast.copy_location(ex, node)
+                        return node
+
+                P().visit(m.node)
+        for k_, n_ in done.items():
+            log.append(f"{cls.module.name}:{cls.name}.{k_} (read-only property expanded at {n_} read(s))")
+    return log
+
+
 def normalise(prog: Program) -> Tuple[Program, List[str]]:
     """-> (normalised program, names of the helpers that were inlined)."""
     log: List[str] = []
@@ -2413,6 +2477,13 @@ def normalise(prog: Program) -> Tuple[Program, List[str]]:
     pc = propagate_module_constants(prog)
     if pc:
         log += pc
+        for m in prog.modules.values():
+            ast.fix_missing_locations(m.tree)
+        trees = {m.relpath: m.tree for m in prog.modules.values()}
+        prog = Program(prog.root, override_trees=trees)
+    pe = expand_new_properties(prog)
+    if pe:
+        log += pe
         for m in prog.modules.values():
             ast.fix_missing_locations(m.tree)
         trees = {m.relpath: m.tree for m in prog.modules.values()}
